@@ -8,6 +8,8 @@ modes: unparse   - ast.unparse of every module (comments, layout, quoting, line 
        reorder   - the methods of every class are sorted by name (class-level aliases stay behind them)
        swapcmp   - a < b -> b > a for single comparisons of side-effect-free operands (also is / is not)
        fstring   - '..%s..' % (a, b) -> f'..{a}..{b}'
+       sqlconst  - SQL string literals inside functions move to module-level constants _SQL_<n>
+       demorgan  - `if a or b` -> `if not (not a and not b)` and dually (same evaluation order)
        ternary   - conditional expressions in assignments/returns become if statements
        all       - all of the above
 The transformed package passes the unedited test suite (recorded in DESIGN §11.10)."""
@@ -264,6 +266,73 @@ class Ternary(ast.NodeTransformer):
         return node
 
 
+# ------------------------------------------------------------------ sqlconst
+class SqlConst(ast.NodeTransformer):
+    """String literals that start with an SQL keyword move to module-level constants _SQL_<n>."""
+    KW = ('SELECT', 'INSERT', 'UPDATE', 'DELETE', 'CREATE', 'DROP', 'PRAGMA', 'BEGIN', 'COMMIT', 'ROLLBACK', 'VACUUM')
+
+    def __init__(self):
+        self.consts = []
+        self.depth = 0
+
+    def visit_FunctionDef(self, node):
+        self.depth += 1
+        self.generic_visit(node)
+        self.depth -= 1
+        return node
+
+    def visit_JoinedStr(self, node):
+        return node
+
+    def visit_Expr(self, node):
+        if isinstance(node.value, ast.Constant):
+            return node         # docstring
+        self.generic_visit(node)
+        return node
+
+    def visit_Constant(self, node):
+        if self.depth and isinstance(node.value, str) and node.value.lstrip().startswith(self.KW) \
+                and ' ' in node.value.strip() or (self.depth and isinstance(node.value, str)
+                                                   and node.value.strip().upper() in ('COMMIT', 'ROLLBACK', 'VACUUM')):
+            name = '_SQL_%d' % len(self.consts)
+            self.consts.append((name, node.value))
+            return ast.Name(id=name, ctx=ast.Load())
+        return node
+
+    def finish(self, tree):
+        # after the last import / docstring at module level
+        pos = 0
+        for i, n in enumerate(tree.body):
+            if isinstance(n, (ast.Import, ast.ImportFrom)) or (i == 0 and isinstance(n, ast.Expr)) \
+                    or isinstance(n, ast.Try):
+                pos = i + 1
+        new = [ast.Assign(targets=[ast.Name(id=k, ctx=ast.Store())], value=ast.Constant(value=v)) for k, v in self.consts]
+        tree.body[pos:pos] = new
+        return tree
+
+
+# ------------------------------------------------------------------ demorgan
+class DeMorgan(ast.NodeTransformer):
+    """if a or b -> if not (not a and not b); if a and b -> if not (not a or not b) (same evaluation order)."""
+    def _flip(self, test):
+        if isinstance(test, ast.BoolOp):
+            other = ast.And() if isinstance(test.op, ast.Or) else ast.Or()
+            vals = [v.operand if isinstance(v, ast.UnaryOp) and isinstance(v.op, ast.Not)
+                    else ast.UnaryOp(op=ast.Not(), operand=v) for v in test.values]
+            return ast.UnaryOp(op=ast.Not(), operand=ast.BoolOp(op=other, values=vals))
+        return test
+
+    def visit_If(self, node):
+        self.generic_visit(node)
+        node.test = self._flip(node.test)
+        return node
+
+    def visit_While(self, node):
+        self.generic_visit(node)
+        node.test = self._flip(node.test)
+        return node
+
+
 def transform(mode, src):
     tree = ast.parse(src)
     if mode in ('rename', 'all'):
@@ -272,6 +341,12 @@ def transform(mode, src):
         tree = Inverter().visit(tree)
     if mode in ('reorder', 'all'):
         tree = Reorderer().visit(tree)
+    if mode in ('sqlconst', 'all'):
+        sc = SqlConst()
+        tree = sc.visit(tree)
+        tree = sc.finish(tree)
+    if mode in ('demorgan', 'all'):
+        tree = DeMorgan().visit(tree)
     if mode in ('ternary', 'all'):
         tree = Ternary().visit(tree)
     if mode in ('swapcmp', 'all'):
